@@ -190,6 +190,27 @@ def server_check(pid, tier):
 
 def replay(pid, path):
     payload = json.load(open(path))
+    if payload.get("publife_schedule"):
+        from common import BIN, sh, tlc
+        build_harness()
+        work = Work("replay")
+        try:
+            sf = work.path("sched.jsonl")
+            with open(sf, "w") as f:
+                f.write(json.dumps(payload["publife_schedule"]) + "\n")
+            tr = work.path("trace.ndjson")
+            sh([os.path.join(BIN, "e2e"), "publife", "--cases", sf, "--out", tr, "--par", "1"], timeout=600)
+            print(open(tr).read())
+            r = tlc("Trace_PubSubLife", "Trace_PubSubLife.cfg", work, workers=1, trace=tr, timeout=600)
+            for v in r.viol:
+                print("flagged:", v)
+            if [v for v in r.viol if pid in v["props"]]:
+                print("VIOLATION property=%s replay=%s" % (pid, path))
+                return 1
+            print("replay: no violation of %s" % pid)
+            return 0
+        finally:
+            work.cleanup()
     if payload.get("reqlife_schedule"):
         from common import BIN, sh, tlc
         build_harness()
@@ -323,6 +344,24 @@ def _pure(pid, tier):
         ev["violations"] = ev.get("violations", 0) + n_new
         json.dump(ev, open(ev_path, "w"), indent=1, sort_keys=True)
         rc = max(rc, rc2)
+    if pid == "C12":
+        # publisher / subscriber handles across connection losses, with traffic (PubSubLife.tla)
+        import e2e_checks
+        pl = e2e_checks.publife_pipeline(tier)
+        if not pl["model_ok"]:
+            raise ToolError("TLC reports PubSubLife violates its invariants:\n" + pl["model_tail"])
+        viols = [dict(v, kind="publife:" + v["kind"]) for v in pl["viol"] if pid in v["props"]]
+        rc3, n_new, hit = verdict(pid, viols, lambda v: write_replay(pid, v["kind"], {
+            "property": pid, "signature": v["kind"], "publife_schedule": v.get("schedule"), "event": v.get("event"), "context": v.get("context"),
+            "how": "./check %s --replay <this file>" % pid}))
+        ev_path = os.path.join(os.path.dirname(os.path.dirname(os.path.abspath(__file__))), "evidence", pid + ".json")
+        ev = json.load(open(ev_path))
+        ev["coverage"]["pubsub_life"] = {k: pl[k] for k in ("models", "schedules", "runs", "events", "deliveries_checked", "n_viol", "n_inconclusive", "sample", "wall_s")}
+        ev["coverage"]["states"] = ev["coverage"].get("states", 0) + sum(m["states"] for m in pl["models"])
+        ev["coverage"]["traces_validated_against_impl"] = ev["coverage"].get("traces_validated_against_impl", 0) + pl["runs"]
+        ev["violations"] = ev.get("violations", 0) + n_new
+        json.dump(ev, open(ev_path, "w"), indent=1, sort_keys=True)
+        rc = max(rc, rc3)
     return rc
 
 
